@@ -198,7 +198,13 @@ func main() {
 
 	var all []Ob
 	perRule := map[string]int{}
-	for _, u := range spec.Uses {
+	uses := spec.Uses
+	// the soundness assumptions of all analyses (no unsafe / reflect / cgo / linkname in the library)
+	uses = append(append([]Use{}, uses...), Use{Rule: "EFF-7", Filter: func(o Ob) bool { return o.Role == "pkg" }})
+	if *tier == "thorough" {
+		uses = append(uses, Use{Rule: "CFG-1"})
+	}
+	for _, u := range uses {
 		got := w.run(u.Rule)
 		roleCount := map[string]int{}
 		n := 0
@@ -299,7 +305,7 @@ func main() {
 		fmt.Println(l)
 	}
 	var ruleDocs []string
-	for _, u := range spec.Uses {
+	for _, u := range uses {
 		ruleDocs = append(ruleDocs, u.Rule+": "+rules[u.Rule].Doc)
 	}
 	sort.Strings(w.loaded)
